@@ -62,6 +62,11 @@ trim = FunctionSpec(
     ensures=_trim_ensures,
     serves=('C17', 'C02'),
 )
+trim_wellformed = FunctionSpec(
+    file='src/correlation/optical_map.py', qualname='OpticalMap.trim', variant='wellformed', params=dict(self=OMAP), returns=OMAP,
+    ensures=lambda C, res: [], class_invariants=True, verify_only=True, serves=('C17', 'C02', 'C12'),
+    note="class invariant of OpticalMap (at least one label, ascending coordinates) is preserved: the obligation at the constructor call, given the invariant "
+         "of the map trimmed (the default contract of trim makes no such assumption and also covers the label-less map)")
 
 # ------------------------------------------------------------------ OpticalMap.getPositionsWithSiteIds
 
@@ -110,7 +115,7 @@ getPositionsWithSiteIds = FunctionSpec(
     note="site id = label number in the whole molecule (shift + index), reverse strand mirrors coordinates about length-1",
 )
 
-SPECS = [toRelativeGenomicPositions, toRelativeGenomicPositions_real, trim, getPositionsWithSiteIds]
+SPECS = [toRelativeGenomicPositions, toRelativeGenomicPositions_real, trim, trim_wellformed, getPositionsWithSiteIds]
 
 # ------------------------------------------------------------------ lemmas over the contracts
 from pyvc.lemma import LemmaSpec
@@ -215,6 +220,7 @@ SPECS += [createPeaks]
 # coordinate bookkeeping around them: which window is vectorised, from which origin bins are counted, and that peaks are converted back with the same origin.
 GEN = OBJ('SequenceGenerator')
 CORR = OBJ('CorrelationResult')
+IA0 = OBJ('InitialAlignment', 'EmptyInitialAlignment')
 from specs.vectorise import _requires as _vec_requires, _axioms as _vec_axioms
 
 
@@ -307,7 +313,7 @@ def _refine_ensures(C, res):
 
 refine = FunctionSpec(
     file='src/correlation/optical_map.py', qualname='InitialAlignment.refine',
-    params=dict(self=OBJ('InitialAlignment'), peakPosition=REAL, sequenceGenerator=GEN, secondaryMargin=REAL, peakHeightThreshold=REAL), returns=CORR,
+    params=dict(self=IA0, peakPosition=REAL, sequenceGenerator=GEN, secondaryMargin=REAL, peakHeightThreshold=REAL), returns=CORR,
     requires=_refine_requires, ensures=_refine_ensures,
     ghost={'g_start': lambda C: z3.RealVal(0), 'g_end': lambda C: z3.RealVal(0), 'g_origin': lambda C: z3.RealVal(0), 'g_res': lambda C: z3.IntVal(0)},
     ghost_at={'call:getSequence#1': _refine_log_ref, 'call:create#0': _refine_log_create},
@@ -377,7 +383,7 @@ def _gia_ensures(C, res):
 
 
 getInitialAlignment_v = FunctionSpec(
-    file='src/correlation/optical_map.py', qualname='OpticalMap.getInitialAlignment', variant='checked',
+    file='src/correlation/optical_map.py', qualname='OpticalMap.getInitialAlignment',
     params=dict(self=OMAP, reference=OMAP, sequenceGenerator=GEN, minPeakDistance=INT, peaksCount=INT, reverseStrand=BOOL), returns=IA,
     requires=_gia_requires, ensures=_gia_ensures, numpy_arrays=True,
     ghost={'seq1_gen': lambda C: z3.Const('gia_none', Ref), 'seq2_gen': lambda C: z3.Const('gia_none', Ref), 'seq1_rev': lambda C: z3.BoolVal(False),
@@ -387,6 +393,6 @@ getInitialAlignment_v = FunctionSpec(
     note="primary seeding of one query on one reference and strand: a query longer than the reference (by declared length, or by its bit vector) gets an empty "
          "result without peaks; otherwise both maps are vectorised with the same generator from their origin (the query on the requested strand), peaks are "
          "bin centres counted from the reference origin, at most peaksCount of them, and strand / resolution are recorded. Correlation, normalisation and peak "
-         "finding are library contracts without values. The call sites keep using the assumed default contract (its preconditions speak about the maps read)")
+         "finding are library contracts without values.")
 
 SPECS += [rms, ia_create, getInitialAlignment_v]
